@@ -167,6 +167,11 @@ type FuncContract struct {
 	LoopInvs  []*Clause // template: invariants added to every loop of the matched functions
 }
 
+type GuardDecl struct {
+	Lock string
+	Tags []string
+}
+
 type SpecFunc struct {
 	Name      string
 	Pkg       string
@@ -216,6 +221,7 @@ type Contracts struct {
 	Specs       map[string]*SpecFunc // by name (global namespace; also pkg.name)
 	Lemmas      []*Lemma
 	GhostFields map[string]*GhostField // "pkg.Type.$name"
+	Guarded     map[string]*GuardDecl  // "pkg.Type.field" -> the lock field that guards it
 	TypeInvs    []*TypeInv
 	GlobalInvs  map[string][]*Clause // package -> facts about package-level variables that no function in scope assigns
 	Files       []string
@@ -779,7 +785,7 @@ var clauseKeywords = map[string]bool{
 	"invariant": true, "ghost": true, "step": true, "exit": true, "func": true, "spec": true,
 	"lemma": true, "axiom": true, "field": true, "type": true, "noreturn": true, "allocates": true,
 	"trigger": true, "params": true, "opaque": true, "havocs": true, "maypanic": true,
-	"channel": true, "free": true, "functype": true, "ghostvar": true, "package": true, "private": true, "template": true, "framed": true, "notemplate": true, "globalinv": true,
+	"channel": true, "free": true, "functype": true, "ghostvar": true, "package": true, "private": true, "template": true, "framed": true, "notemplate": true, "globalinv": true, "guarded": true,
 }
 
 type rawLine struct {
@@ -1099,6 +1105,30 @@ func (C *Contracts) parseStatements(pkg, path string, stmts []rawLine) (err erro
 			}
 			C.GhostVars[f[0]] = T
 			C.GhostVarPkg[f[0]] = pkg
+		case "guarded":
+			// guarded[tags] Type.field by lockfield: the field (and, for a map-valued field, the map it holds) of an
+			// object that is not new in this function is read only while the calling goroutine holds the
+			// sync.RWMutex / sync.Mutex in the object's field lockfield, and written only while it holds it for writing
+			var tags []string
+			r := strings.TrimSpace(rest)
+			if strings.HasPrefix(r, "[") {
+				k := strings.Index(r, "]")
+				if k < 0 {
+					return cerr(st, "bad guarded declaration")
+				}
+				for _, t := range strings.Split(r[1:k], ",") {
+					tags = append(tags, strings.TrimSpace(t))
+				}
+				r = strings.TrimSpace(r[k+1:])
+			}
+			f := strings.Fields(r)
+			if len(f) != 3 || f[1] != "by" || !strings.Contains(f[0], ".") {
+				return cerr(st, "expected: guarded[tags] Type.field by lockfield")
+			}
+			if C.Guarded == nil {
+				C.Guarded = map[string]*GuardDecl{}
+			}
+			C.Guarded[pkg+"."+f[0]] = &GuardDecl{Lock: f[2], Tags: tags}
 		case "field":
 			// field Type.$name T
 			f := strings.Fields(rest)
